@@ -17,6 +17,9 @@
     with a kernel panic exactly when the model's outcome is [PANIC + code] - then with the model's error
     ([T.err_of code]: the allocator's error, the temporary mapping's error, or errUnrecoverableFault) - and without one
     (the last event is the flush) exactly when the model resumes; a stray access of the model is [GPanic].
+    What the statement observes is [F.fres]: the final machine state and the arguments of the MOST RECENT event if that
+    event is nonRecoverablePageFault; the order and arguments of the other seam calls are not part of the statement
+    (their effects on the state - flush log, allocator list, memory - are).
     Hypotheses: 64-bit fault address and memory words; [F.fault_stable]: the model resolves the leaf entry of the
     faulting page ONCE (before the allocation, the temporary mapping, the copy and the unmapping) while the code
     dereferences pageEntry again afterwards, three times; they agree when, after the temporary mapping has come and
